@@ -171,7 +171,14 @@ func runC18(tb report.TB, rep *report.Reporter, c c18Case) {
 					}
 					continue
 				case "query":
-					q, _ := query.Parse("status:open sort:id")
+					// a filter-only listing, or a full-text search whose term also matches the bugs other workers are
+					// creating right now (their titles read "bug of worker …"): the search index and the excerpts are
+					// consulted together
+					text := "status:open sort:id"
+					if call.Bug%2 == 1 {
+						text = "status:open worker"
+					}
+					q, _ := query.Parse(text)
 					_, _ = rc.Bugs().Query(q)
 					continue
 				case "labels":
